@@ -55,12 +55,17 @@ impl RawConnector {
             scorer_builder,
         } = RawConnectorBuilder::from_readers(right_rdr, left_rdr, cost_rdr)?;
 
+        if feat_template_size == 0 {
+            return Err(VibratoError::invalid_format(
+                "bigram.right/left",
+                "No feature is defined for any connection id.",
+            ));
+        }
+
         // Adjusts to a multiple of SIMD_SIZE for AVX2 compatibility.
         //
         // In nightly: feat_template_size = feat_template_size.next_multiple_of(SIMD_SIZE);
-        if feat_template_size != 0 {
-            feat_template_size = ((feat_template_size - 1) / SIMD_SIZE + 1) * SIMD_SIZE;
-        }
+        feat_template_size = ((feat_template_size - 1) / SIMD_SIZE + 1) * SIMD_SIZE;
 
         // Converts a vector of N vectors into a matrix of size (N+1)*M,
         // where M is the maximum length of a vector in the N vectors.
